@@ -203,4 +203,39 @@ def TrkSys.holds (s : TrkSys) (ko : KOp) : Bool :=
   | some e => matchesOp e ko
   | none => false
 
+-- ---------------------------------------------------------------------------------------------
+-- descriptor numbers are handed out again: requests have to name the connection they mean
+-- ---------------------------------------------------------------------------------------------
+
+/-- the worker's handler table: descriptor number → the connection (token) that owns it now -/
+structure FdTable where
+  conns : List (Nat × Nat) := []      -- (descriptor, token of the connection registered under it)
+  next : Nat := 1                     -- the next token
+  /-- ghost: connections that were shut down by a request issued for ANOTHER connection -/
+  wronglyClosed : List Nat := []
+deriving DecidableEq, Repr
+
+inductive FdEv where
+  | registered (fd : Nat)             -- RegisterExternalZmtpFd: a new connection under this descriptor number
+  | closed (fd : Nat)                 -- CloseFd completion: the handler is removed, the kernel may reuse the number
+  | shutdownRequest (fd tok : Nat)    -- ShutdownConnectionHandler from the socket side, possibly late
+deriving DecidableEq, Repr
+
+def FdTable.owner (t : FdTable) (fd : Nat) : Option Nat := (t.conns.find? (·.1 == fd)).map (·.2)
+
+/-- `named`: the request carries the token of the connection it was issued for and is ignored by any other -/
+def FdTable.step (named : Bool) (t : FdTable) : FdEv → FdTable
+  | .registered fd =>
+    if (t.owner fd).isSome then t else { t with conns := t.conns ++ [(fd, t.next)], next := t.next + 1 }
+  | .closed fd => { t with conns := t.conns.filter (·.1 != fd) }
+  | .shutdownRequest fd tok =>
+    match t.owner fd with
+    | none => t
+    | some cur =>
+      if named && cur != tok then t
+      else { t with conns := t.conns.filter (·.1 != fd),
+                    wronglyClosed := if cur != tok then t.wronglyClosed ++ [cur] else t.wronglyClosed }
+
+def FdTable.run (named : Bool) (t : FdTable) (evs : List FdEv) : FdTable := evs.foldl (FdTable.step named) t
+
 end Rzmq
